@@ -28,6 +28,10 @@ Fixpoint Sparse (s : list (fate * fate)) : Prop :=
   end.
 Lemma Sparse_tl s : Sparse s -> hd (FD, FD) s = (FD, FD) -> Sparse (tl s).
 Proof. destruct s as [|ff r]; [auto|]. cbn. intros H ->. exact H. Qed.
+(* no response is corrupted (a request that was delivered is never answered by an unreadable frame) *)
+Definition NC (s : list (fate * fate)) : Prop := Forall (fun ff => ff <> (FD, FC)) s.
+Lemma NC_skipn k s : NC s -> NC (skipn k s).
+Proof. unfold NC. revert s. induction k as [|k IH]; intros s H; [exact H|]. destruct s; [constructor|]. inversion H; subst. apply IH. assumption. Qed.
 Lemma clean_eq ff : clean ff = true -> ff = (FD, FD).
 Proof. destruct ff as [[] []]; cbn; congruence. Qed.
 
@@ -324,7 +328,7 @@ Qed.
 (* a single fault, followed by two fault free rounds, is recovered: the call returns the response (an ACK response
    only ever answers a chained information PDU, for which request_retransmission accepts its retransmission) *)
 Lemma srr_loop_sparse fuel p deadline w : w_t w = t0 \/ w_t w = awake t0 -> 0 <= p <= 3 -> Sparse (w_script w) ->
-  2 <= deadline - w_now w -> (2 <= fuel)%nat -> ((fmt r = F_INF \/ fmt r = F_MORE) \/ (fmt r = F_ACK /\ fmt d = F_MORE)) ->
+  2 <= deadline - w_now w -> (2 <= fuel)%nat -> ((fmt r = F_INF \/ fmt r = F_MORE) \/ (fmt r = F_ACK /\ fmt d = F_MORE) \/ NC (w_script w)) ->
   exists w', srr_loop fuel ic tc p (PDepReq d) 1 deadline w = (Ok (PDepRes r), w') /\ w_t w' = t1 /\ Sparse (w_script w') /\
              exists k, w_script w' = skipn k (w_script w).
 Proof.
@@ -361,7 +365,9 @@ Proof.
   - rewrite Esc in E4. cbn in E4. subst ff.
     cbn [is_chained].
     destruct (req_nak_dd 1 p (fmt d =? F_MORE) 1 deadline w1 E1 Hp) as (w2 & E & A & B & C);
-      [rewrite E2, Esc; reflexivity | lia | destruct Hfr as [Hfr|[Hfr Hd]]; [left; exact Hfr | right; split; [exact Hfr | rewrite Hd; reflexivity]]|].
+      [rewrite E2, Esc; reflexivity | lia |
+       destruct Hfr as [Hfr|[[Hfr Hd]|Hnc]]; [left; exact Hfr | right; split; [exact Hfr | rewrite Hd; reflexivity] |
+         exfalso; inversion Hnc as [|? ? Hh _]; apply Hh; reflexivity]|].
     exists w2. rewrite E, B, E2, Esc. cbn. repeat split; auto. exists 2%nat. reflexivity.
   - rewrite Esc in E4. cbn in E4. subst ff. discriminate.
 Qed.
@@ -390,14 +396,349 @@ Proof.
   destruct (srr_loop_nofault fuel p rwt (w_now w + timeout) w Hin Hhd) as (w' & E & A & B & C); [lia | exact Hf|].
   rewrite E. replace (fmt r =? F_NAK) with false by lia. exists w'. auto.
 Qed.
-Theorem srr_sparse fuel p timeout w : w_t w = t0 \/ w_t w = awake t0 -> 0 <= p <= 3 -> Sparse (w_script w) ->
-  2 <= timeout -> (2 <= fuel)%nat -> ((fmt r = F_INF \/ fmt r = F_MORE) \/ (fmt r = F_ACK /\ fmt d = F_MORE)) ->
+Theorem srr_sparse fuel p timeout w : fmt r <> F_NAK ->
+  w_t w = t0 \/ w_t w = awake t0 -> 0 <= p <= 3 -> Sparse (w_script w) ->
+  2 <= timeout -> (2 <= fuel)%nat -> ((fmt r = F_INF \/ fmt r = F_MORE) \/ (fmt r = F_ACK /\ fmt d = F_MORE) \/ NC (w_script w)) ->
   exists w', srr fuel ic tc p d 1 timeout w = (Ok r, w') /\ w_t w' = t1 /\ Sparse (w_script w') /\
              exists k, w_script w' = skipn k (w_script w).
 Proof.
-  intros Hw0 Hp Hsp Hto Hfuel Hfr. unfold srr.
+  intros Hnak Hw0 Hp Hsp Hto Hfuel Hfr. unfold srr.
   destruct (srr_loop_sparse fuel p (w_now w + timeout) w Hw0 Hp Hsp ltac:(lia) Hfuel Hfr) as (w' & E & A & B & C).
-  rewrite E. replace (fmt r =? F_NAK) with false by (unfold F_INF, F_MORE, F_ACK, F_NAK in *; lia). exists w'. auto.
+  rewrite E. replace (fmt r =? F_NAK) with false by lia. exists w'. auto.
 Qed.
 End Step.
+
+(* ---------------------------------------------------------------- the time-out extension phase *)
+(* Between accepting the last information PDU of a payload and sending the response the target application may
+   call send_timeout_extension several times.  The target is then in one of the states Rph: waiting for the RTOX
+   request that answers its RTOX x (with rt still to come), or already sending the response.  A repeated RTOX request
+   (its answer was lost) is taken for the answer to the NEXT pending RTOX response, so one handshake may be skipped;
+   the data are not affected. *)
+Section Rtox.
+Variables (q : Z) (resp : list Z) (rest : list (list Z * list Z)) (out0 : list tres).
+Hypothesis Hq : 0 <= q <= 3.
+Hypothesis Hresp : resp <> [].
+
+Definition rtoxres (x : Z) : deppdu := mkdep F_RTOX 0 (tc_did tc) (tc_nad tc) [x].
+Definition infr : deppdu :=
+  mkdep (if tc_miu tc <? len resp then F_MORE else F_INF) q (tc_did tc) (tc_nad tc) (take (tc_miu tc) resp).
+Definition rt_ok (x : Z) : Prop := 0 < x < 60.
+
+Inductive Rph (m : nat) (t : tgt) : Prop :=
+| Rph_rtox x rt : Tinv tc t -> t_pni t = Some q -> t_out t = out0 -> t_pos t = TRtox -> t_res t = Some (rtoxres x) ->
+    t_app t = (rt, resp) :: rest -> Forall rt_ok (x :: rt) -> (S (length rt) <= m)%nat -> Rph m t
+| Rph_send : Tinv tc t -> t_pni t = Some q -> t_out t = out0 -> t_pos t = TSend resp -> t_res t = Some infr ->
+    t_app t = rest -> Rph m t.
+
+Lemma Rph_mono m m' t : (m <= m')%nat -> Rph m t -> Rph m' t.
+Proof. intros H [x rt A B C D E F G I|A B C D E F]; [eapply Rph_rtox; eauto; lia | apply Rph_send; auto]. Qed.
+
+Lemma rtoxres_ok x : resp_ok tc (rtoxres x).
+Proof. apply resp_ok_mk; [unfold F_RTOX; lia | lia | change (len [x]) with 1; lia]. Qed.
+Lemma infr_ok : resp_ok tc infr.
+Proof. apply resp_ok_mk; [destruct (tc_miu tc <? len resp); unfold F_MORE, F_INF; lia | exact Hq | apply len_take_le; lia]. Qed.
+
+Lemma Rph_facts m t : Rph m t ->
+  t_pos t <> TStop /\ t_pos t <> TListen /\ t_out t = out0 /\
+  exists r, t_res t = Some r /\ resp_ok tc r /\ fmt r <> F_NAK /\
+            ((r = infr /\ t_pos t = TSend resp) \/ (exists x, r = rtoxres x /\ rt_ok x /\ t_pos t = TRtox)).
+Proof.
+  intros [x rt A B C D E F G I|A B C D E F].
+  - rewrite D. repeat split; try discriminate; try assumption. exists (rtoxres x). split; [exact E|]. split; [apply rtoxres_ok|].
+    split; [cbn; unfold F_RTOX, F_NAK; lia|]. right. exists x. inversion G; auto.
+  - rewrite D. repeat split; try discriminate; try assumption. exists infr. split; [exact E|]. split; [apply infr_ok|].
+    split; [unfold infr; cbn; destruct (tc_miu tc <? len resp); unfold F_MORE, F_INF, F_NAK; lia|]. left. auto.
+Qed.
+
+Definition rtox_req (x : Z) : deppdu := i_dep ic F_RTOX 0 [x].
+Lemma rtox_req_ok x : req_ok (rtox_req x).
+Proof. apply i_dep_ok; unfold F_RTOX; try lia. change (len [x]) with 1. lia. Qed.
+
+(* an RTOX request at a state of the phase: one handshake further (or the response again), never back *)
+Lemma Rph_step_rtox m t x : Rph (S m) t ->
+  exists t' r, tgt_step tc t (PDepReq (rtox_req x)) = (t', Some (PDepRes r)) /\ Rph m t' /\ t_res t' = Some r.
+Proof.
+  intros [y rt A B C D E F G I|A B C D E F].
+  - unfold tgt_step. rewrite D. cbn [pdu_did rtox_req i_dep did]. rewrite <- Hdid, opt_eqb_refl. cbn [negb fmt].
+    change (F_RTOX =? F_ATN) with false. change (F_RTOX =? F_NAK) with false. change (F_RTOX =? F_RTOX) with true. cbv iota.
+    rewrite E. cbn [fmt rtoxres]. change (F_RTOX =? F_RTOX) with true. cbv iota.
+    unfold t_accept. rewrite D. cbn [fmt data]. change (F_RTOX =? F_RTOX) with true. cbv iota.
+    unfold t_app_continue. cbn [t_app t_pni t_pos t_res t_out t_rtx t_act]. rewrite F.
+    destruct A as [Ap Ar]. inversion G as [|? ? G1 G2]; subst.
+    destruct rt as [|x' rt'].
+    + unfold t_start_send. destruct resp as [|b resp'] eqn:Er; [congruence|]. cbn [t_pni]. rewrite B. rewrite <- Er.
+      unfold t_emit. cbn [t_pni t_pos t_res t_app t_out t_rtx t_act]. do 2 eexists. split; [reflexivity|]. split; [|reflexivity].
+      apply Rph_send; cbn; auto. split; cbn; [intros p0 Hp0; injection Hp0 as <-; exact Hq | intros r0 Hr0; injection Hr0 as <-; apply infr_ok].
+    + unfold t_emit. cbn [t_pni t_pos t_res t_app t_out t_rtx t_act]. do 2 eexists. split; [reflexivity|]. split; [|reflexivity].
+      apply (Rph_rtox m _ x' rt'); cbn [t_pni t_pos t_res t_app t_out t_rtx t_act];
+        [split; cbn; [exact Ap | intros r0 Hr0; injection Hr0 as <-; apply rtoxres_ok]
+        | exact B | exact C | reflexivity | reflexivity | reflexivity | exact G2 | cbn [length] in I; lia].
+  - exists t, infr. split; [|split; [apply Rph_send; auto | exact E]].
+    unfold tgt_step. rewrite D. cbn [pdu_did rtox_req i_dep did]. rewrite <- Hdid, opt_eqb_refl. cbn [negb fmt].
+    change (F_RTOX =? F_ATN) with false. change (F_RTOX =? F_NAK) with false. change (F_RTOX =? F_RTOX) with true. cbv iota.
+    rewrite E. replace (fmt infr =? F_RTOX) with false by (unfold infr; cbn; destruct (tc_miu tc <? len resp); reflexivity).
+    unfold t_resend. rewrite E. reflexivity.
+Qed.
+
+Lemma Rph_step_atn m t : Rph m t -> tgt_step tc t (PDepReq (i_dep ic F_ATN 0 [])) = (t, Some (PDepRes (atn_res tc))).
+Proof.
+  intro H. destruct (Rph_facts _ _ H) as (A & B & _).
+  rewrite (step_atn tc t _ A); [rewrite awake_not_listen by exact B; reflexivity | cbn; symmetry; exact Hdid | reflexivity].
+Qed.
+Lemma Rph_step_nak m t p : Rph m t -> exists r, t_res t = Some r /\ tgt_step tc t (PDepReq (i_dep ic F_NAK p [])) = (t, Some (PDepRes r)).
+Proof.
+  intro H. destruct (Rph_facts _ _ H) as (A & B & _ & r & Er & _). exists r. split; [exact Er|].
+  rewrite (step_nak tc t _ A B); [rewrite Er; reflexivity | cbn; symmetry; exact Hdid | reflexivity].
+Qed.
+
+Lemma i_atn_ok : req_ok (i_dep ic F_ATN 0 []).
+Proof. apply i_dep_ok; unfold F_ATN; try lia. change (len (@nil Z)) with 0. lia. Qed.
+Lemma i_nak_ok p : 0 <= p <= 3 -> req_ok (i_dep ic F_NAK p []).
+Proof. intro. apply i_dep_ok; unfold F_NAK; try lia. change (len (@nil Z)) with 0. lia. Qed.
+
+Lemma req_atn_R m n : forall rwt deadline w out w', Rph m (w_t w) ->
+  req_atn n ic tc rwt deadline w = (out, w') ->
+  w_t w' = w_t w /\ w_now w <= w_now w' /\ (out = Ok tt \/ exists e, out = Err e /\ comm e).
+Proof.
+  induction n as [|n IH]; intros rwt deadline w out w' HR H; cbn [req_atn] in H.
+  - injection H as <- <-. split; [reflexivity|]. split; [lia|]. right; eauto.
+  - destruct (Z.min rwt (deadline - w_now w) <=? 0) eqn:Et.
+    { injection H as <- <-. split; [reflexivity|]. split; [lia|]. right; eauto. }
+    pose proof (srr1_step _ (Z.min rwt (deadline - w_now w)) w _ _ i_atn_ok (atn_res_ok tc Hmt) (Rph_step_atn _ _ HR)) as Hso.
+    destruct (srr1 ic tc (PDepReq (i_dep ic F_ATN 0 [])) (Z.min rwt (deadline - w_now w)) w) as [x w1].
+    inversion Hso as [w2 E1 E2 E3 E4 E5|w2 E1 E2 E3 E4 E5|w2 E1 E2 E3 E4 E5|w2 E1 E2 E3 E4 E5]; subst x w2.
+    1,2,3: (assert (HR1 : Rph m (w_t w1)) by (rewrite E1; exact HR);
+            destruct (IH _ _ _ _ _ HR1 H) as (A & B & C); split; [congruence|]; split; [lia | exact C]).
+    cbn [atn_res fmt] in H. change (F_ATN =? F_RTOX) with false in H. change (F_ATN =? F_ATN) with true in H. cbn in H.
+    injection H as <- <-. split; [exact E1|]. split; [lia|]. left; reflexivity.
+Qed.
+
+Lemma req_nak_R m n : forall p ch rwt deadline w out w', Rph m (w_t w) -> 0 <= p <= 3 ->
+  req_nak n ic tc p ch rwt deadline w = (out, w') ->
+  w_t w' = w_t w /\ w_now w <= w_now w' /\
+  ((exists r, out = Ok (PDepRes r) /\ t_res (w_t w) = Some r) \/ exists e, out = Err e /\ comm e).
+Proof.
+  induction n as [|n IH]; intros p ch rwt deadline w out w' HR Hp H; cbn [req_nak] in H.
+  - injection H as <- <-. split; [reflexivity|]. split; [lia|]. right; eauto.
+  - destruct (Z.min rwt (deadline - w_now w) <=? 0) eqn:Et.
+    { injection H as <- <-. split; [reflexivity|]. split; [lia|]. right; eauto. }
+    destruct (Rph_step_nak _ _ p HR) as (r & Er & Hs).
+    destruct (Rph_facts _ _ HR) as (_ & _ & _ & r' & Er' & Hok & _). rewrite Er in Er'. injection Er' as <-.
+    pose proof (srr1_step _ (Z.min rwt (deadline - w_now w)) w _ _ (i_nak_ok p Hp) Hok Hs) as Hso.
+    destruct (srr1 ic tc (PDepReq (i_dep ic F_NAK p [])) (Z.min rwt (deadline - w_now w)) w) as [x w1].
+    inversion Hso as [w2 E1 E2 E3 E4 E5|w2 E1 E2 E3 E4 E5|w2 E1 E2 E3 E4 E5|w2 E1 E2 E3 E4 E5]; subst x w2.
+    1,2,3: (assert (HR1 : Rph m (w_t w1)) by (rewrite E1; exact HR);
+            destruct (IH _ _ _ _ _ _ _ HR1 Hp H) as (A & B & C); split; [congruence|]; split; [lia|];
+            destruct C as [(r0 & C1 & C2)|C]; [left; exists r0; split; [exact C1 | rewrite <- E1; exact C2] | right; exact C]).
+    destruct (fmt r =? F_RTOX); [injection H as <- <-; split; [exact E1|]; split; [lia|]; right; eauto|].
+    destruct (negb ((fmt r =? F_INF) || (fmt r =? F_MORE) || (ch && (fmt r =? F_ACK)))); injection H as <- <-;
+      (split; [exact E1|]; split; [lia|]); [right; eauto | left; eauto].
+Qed.
+
+(* the while True loop for an RTOX request *)
+Lemma srr_loop_R m x fuel : forall p rwt deadline w out w', Rph (S m) (w_t w) -> 0 <= p <= 3 -> 1 <= rwt ->
+  srr_loop fuel ic tc p (PDepReq (rtox_req x)) rwt deadline w = (out, w') ->
+  Rph (S m) (w_t w') /\
+  ((exists r, out = Ok (PDepRes r) /\ Rph m (w_t w') /\ t_res (w_t w') = Some r) \/ (exists e, out = Err e /\ comm e) \/
+   (out = Hang /\ Z.of_nat fuel <= Z.max 0 (deadline - w_now w))).
+Proof.
+  induction fuel as [|f IH]; intros p rwt deadline w out w' HR Hp Hrwt H; cbn [srr_loop] in H.
+  - injection H as <- <-. split; [exact HR|]. right; right. split; [reflexivity | lia].
+  - destruct (Z.min rwt (deadline - w_now w) <=? 0) eqn:Et.
+    { injection H as <- <-. split; [exact HR|]. right; left; eauto. }
+    destruct (Rph_step_rtox m _ x HR) as (t' & r & Hs & HR' & Er').
+    destruct (Rph_facts _ _ HR') as (_ & _ & _ & r0 & Er0 & Hok & _). rewrite Er' in Er0. injection Er0 as <-.
+    pose proof (srr1_step _ (Z.min rwt (deadline - w_now w)) w _ _ (rtox_req_ok x) Hok Hs) as Hso.
+    destruct (srr1 ic tc (PDepReq (rtox_req x)) (Z.min rwt (deadline - w_now w)) w) as [y w1].
+    assert (Hcont : forall w1, Rph (S m) (w_t w1) -> w_now w + 1 <= w_now w1 ->
+              match req_atn 2 ic tc rwt deadline w1 with
+              | (Ok _, w2) => srr_loop f ic tc p (PDepReq (rtox_req x)) rwt deadline w2
+              | (Err e, w2) => (Err e, w2) | (Crash c, w2) => (Crash c, w2) | (Hang, w2) => (Hang, w2) end = (out, w') ->
+              Rph (S m) (w_t w') /\
+              ((exists r, out = Ok (PDepRes r) /\ Rph m (w_t w') /\ t_res (w_t w') = Some r) \/ (exists e, out = Err e /\ comm e) \/
+               (out = Hang /\ Z.of_nat (S f) <= Z.max 0 (deadline - w_now w)))).
+    { intros wa HRa Hnow Ha. destruct (req_atn 2 ic tc rwt deadline wa) as [z w2] eqn:Ea.
+      destruct (req_atn_R _ _ _ _ _ _ _ HRa Ea) as (A & C & D).
+      destruct D as [->|[e [-> He]]].
+      - assert (HR2 : Rph (S m) (w_t w2)) by (rewrite A; exact HRa).
+        destruct (IH _ _ _ _ _ _ HR2 Hp Hrwt Ha) as (A' & B').
+        split; [exact A'|]. destruct B' as [B'|[B'|[B1 B2]]]; [left; exact B' | right; left; exact B' | right; right; split; [exact B1 | lia]].
+      - injection Ha as <- <-. split; [rewrite A; exact HRa|]. right; left; eauto. }
+    inversion Hso as [w2 E1 E2 E3 E4 E5|w2 E1 E2 E3 E4 E5|w2 E1 E2 E3 E4 E5|w2 E1 E2 E3 E4 E5]; subst y w2.
+    + apply (Hcont w1); [rewrite E1; exact HR | lia | exact H].
+    + apply (Hcont w1); [rewrite E1; apply (Rph_mono m); [lia | exact HR'] | lia | exact H].
+    + assert (HR1 : Rph m (w_t w1)) by (rewrite E1; exact HR').
+      destruct (req_nak_R _ _ _ _ _ _ _ _ _ HR1 Hp H) as (A & B & C).
+      split; [rewrite A; apply (Rph_mono m); [lia | exact HR1]|].
+      destruct C as [(r1 & -> & C2)|[e [-> He]]]; [left; exists r1; rewrite A; auto | right; left; eauto].
+    + injection H as <- <-. split; [rewrite E1; apply (Rph_mono m); [lia | exact HR']|]. left. exists r. rewrite E1. auto.
+Qed.
+
+Theorem srr_R m x fuel p rwt timeout w out w' : Rph (S m) (w_t w) -> 0 <= p <= 3 -> 1 <= rwt ->
+  srr fuel ic tc p (rtox_req x) rwt timeout w = (out, w') ->
+  Rph (S m) (w_t w') /\
+  ((exists r, out = Ok r /\ Rph m (w_t w') /\ t_res (w_t w') = Some r) \/ (exists e, out = Err e /\ comm e) \/
+   (out = Hang /\ Z.of_nat fuel <= Z.max 0 timeout)).
+Proof.
+  intros HR Hp Hrwt H. unfold srr in H.
+  destruct (srr_loop fuel ic tc p (PDepReq (rtox_req x)) rwt (w_now w + timeout) w) as [y w1] eqn:El.
+  destruct (srr_loop_R _ _ _ _ _ _ _ _ _ HR Hp Hrwt El) as (A & B).
+  destruct B as [(r & -> & B1 & B2)|[[e [-> He]]|[-> B]]].
+  - destruct (Rph_facts _ _ B1) as (_ & _ & _ & r0 & Er0 & _ & Hn & _). rewrite B2 in Er0. injection Er0 as <-.
+    replace (fmt r =? F_NAK) with false in H by lia. injection H as <- <-. split; [exact A|]. left. eauto.
+  - injection H as <- <-. split; [exact A|]. right; left; eauto.
+  - injection H as <- <-. split; [exact A|]. right; right. split; [reflexivity | lia].
+Qed.
+
+(* fault free round *)
+Lemma srr_R_clean m x fuel p rwt timeout w : Rph (S m) (w_t w) -> hd (FD, FD) (w_script w) = (FD, FD) ->
+  1 <= rwt -> 1 <= timeout -> (1 <= fuel)%nat ->
+  exists r w', srr fuel ic tc p (rtox_req x) rwt timeout w = (Ok r, w') /\ Rph m (w_t w') /\ t_res (w_t w') = Some r /\
+               w_script w' = tl (w_script w) /\ w_now w' = w_now w.
+Proof.
+  intros HR Hhd Hrwt Hto Hf. destruct fuel as [|f]; [lia|]. unfold srr. cbn [srr_loop].
+  replace (Z.min rwt (w_now w + timeout - w_now w) <=? 0) with false by lia.
+  destruct (Rph_step_rtox m _ x HR) as (t' & r & Hs & HR' & Er').
+  destruct (Rph_facts _ _ HR') as (_ & _ & _ & r0 & Er0 & Hok & Hn & _). rewrite Er' in Er0. injection Er0 as <-.
+  pose proof (srr1_step _ (Z.min rwt (w_now w + timeout - w_now w)) w _ _ (rtox_req_ok x) Hok Hs) as Hso.
+  destruct (srr1 ic tc (PDepReq (rtox_req x)) (Z.min rwt (w_now w + timeout - w_now w)) w) as [y w1].
+  inversion Hso as [w2 E1 E2 E3 E4 E5|w2 E1 E2 E3 E4 E5|w2 E1 E2 E3 E4 E5|w2 E1 E2 E3 E4 E5]; subst y w2.
+  - exfalso. apply E4. rewrite Hhd. reflexivity.
+  - rewrite Hhd in E4. discriminate.
+  - rewrite Hhd in E4. discriminate.
+  - replace (fmt r =? F_NAK) with false by lia. exists r, w1. rewrite E1. auto.
+Qed.
+
+(* a lost / corrupted RTOX request or a lost answer to it, followed by two fault free rounds, is recovered *)
+Lemma srr_R_sparse m x fuel p timeout w : Rph (S m) (w_t w) -> 0 <= p <= 3 -> Sparse (w_script w) -> NC (w_script w) ->
+  1 <= x -> x + 1 <= timeout -> (2 <= fuel)%nat ->
+  exists r w', srr fuel ic tc p (rtox_req x) (x * 1) timeout w = (Ok r, w') /\ Rph m (w_t w') /\ t_res (w_t w') = Some r /\
+               Sparse (w_script w') /\ exists k, w_script w' = skipn k (w_script w).
+Proof.
+  intros HR Hp Hsp Hnc Hx Hto Hfuel.
+  destruct (w_script w) as [|ff rs] eqn:Esc.
+  { destruct (srr_R_clean m x fuel p (x * 1) timeout w HR) as (r & w' & E & A & B & C & D); [rewrite Esc; reflexivity | lia | lia | lia|].
+    exists r, w'. rewrite C, Esc. cbn. repeat split; auto. exists 0%nat. reflexivity. }
+  cbn [Sparse] in Hsp. destruct (clean ff) eqn:Ec.
+  { destruct (srr_R_clean m x fuel p (x * 1) timeout w HR) as (r & w' & E & A & B & C & D); [rewrite Esc; cbn; apply clean_eq, Ec | lia | lia | lia|].
+    exists r, w'. rewrite C, Esc. cbn. repeat split; auto. exists 1%nat. reflexivity. }
+  destruct rs as [|f1 [|f2 rs2]]; try contradiction. destruct Hsp as (C1 & C2 & Hsp).
+  apply clean_eq in C1. apply clean_eq in C2. subst f1 f2.
+  destruct fuel as [|[|f]]; try lia. unfold srr. cbn [srr_loop].
+  replace (Z.min (x * 1) (w_now w + timeout - w_now w) <=? 0) with false by lia.
+  destruct (Rph_step_rtox m _ x HR) as (t' & r & Hs & HR' & Er').
+  destruct (Rph_facts _ _ HR') as (_ & _ & _ & r0 & Er0 & Hok & Hn & _). rewrite Er' in Er0. injection Er0 as <-.
+  pose proof (srr1_step _ (Z.min (x * 1) (w_now w + timeout - w_now w)) w _ _ (rtox_req_ok x) Hok Hs) as Hso.
+  destruct (srr1 ic tc (PDepReq (rtox_req x)) (Z.min (x * 1) (w_now w + timeout - w_now w)) w) as [y w1].
+  (* after a time-out: one attention round, then the request again - both fault free *)
+  assert (Hatn : forall wa mm, Rph (S mm) (w_t wa) -> (mm <= m)%nat -> w_script wa = (FD, FD) :: (FD, FD) :: rs2 ->
+            w_now wa = w_now w + Z.min (x * 1) (w_now w + timeout - w_now w) ->
+            exists r w', (match (match req_atn 2 ic tc (x * 1) (w_now w + timeout) wa with
+                       | (Ok _, w2) => srr_loop (S f) ic tc p (PDepReq (rtox_req x)) (x * 1) (w_now w + timeout) w2
+                       | (Err e, w2) => (Err e, w2) | (Crash c, w2) => (Crash c, w2) | (Hang, w2) => (Hang, w2) end) with
+                       | (Ok (PDepRes d0), w3) => if fmt d0 =? F_NAK then (Err ProtocolError, w3) else (Ok d0, w3)
+                       | (Ok _, w3) => (Crash AttributeErr, w3) | (Err e, w3) => (Err e, w3)
+                       | (Crash x0, w3) => (Crash x0, w3) | (Hang, w3) => (Hang, w3) end)
+                       = (Ok r, w') /\ Rph m (w_t w') /\ t_res (w_t w') = Some r /\ Sparse (w_script w') /\
+                       exists k, w_script w' = skipn k (ff :: (FD, FD) :: (FD, FD) :: rs2)).
+  { intros wa mm HRa Hmm Hsa Hna.
+    (* attention round *)
+    cbn [req_atn]. replace (Z.min (x * 1) (w_now w + timeout - w_now wa) <=? 0) with false by lia.
+    pose proof (srr1_step _ (Z.min (x * 1) (w_now w + timeout - w_now wa)) wa _ _ i_atn_ok (atn_res_ok tc Hmt) (Rph_step_atn _ _ HRa)) as Ha.
+    destruct (srr1 ic tc (PDepReq (i_dep ic F_ATN 0 [])) (Z.min (x * 1) (w_now w + timeout - w_now wa)) wa) as [z w2].
+    inversion Ha as [w4 E1 E2 E3 E4 E5|w4 E1 E2 E3 E4 E5|w4 E1 E2 E3 E4 E5|w4 E1 E2 E3 E4 E5]; subst z w4;
+      try (rewrite Hsa in E4; cbn in E4; try discriminate; exfalso; apply E4; reflexivity).
+    cbn [atn_res fmt]. change (F_ATN =? F_RTOX) with false. change (F_ATN =? F_ATN) with true. cbn [negb]. cbv iota.
+    (* the request again *)
+    assert (HR2 : Rph (S mm) (w_t w2)) by (rewrite E1; exact HRa).
+    cbn [srr_loop]. replace (Z.min (x * 1) (w_now w + timeout - w_now w2) <=? 0) with false by lia.
+    destruct (Rph_step_rtox mm _ x HR2) as (t2 & r2 & Hs2 & HR2' & Er2).
+    destruct (Rph_facts _ _ HR2') as (_ & _ & _ & r0 & Er0 & Hok2 & Hn2 & _). rewrite Er2 in Er0. injection Er0 as <-.
+    pose proof (srr1_step _ (Z.min (x * 1) (w_now w + timeout - w_now w2)) w2 _ _ (rtox_req_ok x) Hok2 Hs2) as Hb.
+    destruct (srr1 ic tc (PDepReq (rtox_req x)) (Z.min (x * 1) (w_now w + timeout - w_now w2)) w2) as [z w3].
+    inversion Hb as [w4 F1 F2 F3 F4 F5|w4 F1 F2 F3 F4 F5|w4 F1 F2 F3 F4 F5|w4 F1 F2 F3 F4 F5]; subst z w4;
+      try (rewrite E2, Hsa in F4; cbn in F4; try discriminate; exfalso; apply F4; reflexivity).
+    replace (fmt r2 =? F_NAK) with false by lia.
+    exists r2, w3. split; [reflexivity|]. rewrite F1. split; [apply (Rph_mono mm); [lia | exact HR2']|]. split; [exact Er2|].
+    rewrite F2, E2, Hsa. cbn. split; [exact Hsp|]. exists 3%nat. reflexivity. }
+  inversion Hso as [w2 E1 E2 E3 E4 E5|w2 E1 E2 E3 E4 E5|w2 E1 E2 E3 E4 E5|w2 E1 E2 E3 E4 E5]; subst y w2.
+  - apply (Hatn w1 m); [rewrite E1; exact HR | lia | rewrite E2, Esc; reflexivity | exact E3].
+  - destruct m as [|m'].
+    + (* the response phase was already reached: the target answers the repeated request with the response again *)
+      apply (Hatn w1 0%nat); [rewrite E1; apply (Rph_mono 0); [lia | exact HR'] | lia | rewrite E2, Esc; reflexivity | exact E3].
+    + apply (Hatn w1 m'); [rewrite E1; exact HR' | lia | rewrite E2, Esc; reflexivity | exact E3].
+  - exfalso. rewrite Esc in E4. cbn in E4. subst ff. inversion Hnc as [|? ? Hh _]. apply Hh. reflexivity.
+  - rewrite Esc in E4. cbn in E4. subst ff. discriminate.
+Qed.
+
+(* the RTOX loop of Initiator.exchange: at most n pending handshakes *)
+Lemma rtox_loop_R n : forall fuel p r timeout w out w', Rph n (w_t w) -> t_res (w_t w) = Some r -> fmt r = F_RTOX ->
+  0 <= p <= 3 -> Z.max 0 timeout < Z.of_nat fuel ->
+  rtox_loop n fuel ic tc p r timeout w = (out, w') ->
+  ((exists e, out = Err e /\ comm e) /\ Rph n (w_t w')) \/ (out = Ok infr /\ Rph 0 (w_t w')).
+Proof.
+  induction n as [|n IH]; intros fuel p r timeout w out w' HR Er Hf Hp Hfuel H.
+  { exfalso. destruct HR as [x rt A B C D E F G I|A B C D E F]; [lia|]. rewrite E in Er. injection Er as <-.
+    unfold infr in Hf. cbn in Hf. destruct (tc_miu tc <? len resp); discriminate. }
+  cbn [rtox_loop] in H.
+  destruct (Rph_facts _ _ HR) as (_ & _ & _ & r0 & Er0 & _ & _ & Hk). rewrite Er in Er0. injection Er0 as <-.
+  destruct Hk as [[-> _]|(x & -> & Hx & _)].
+  { exfalso. unfold infr in Hf. cbn in Hf. destruct (tc_miu tc <? len resp); discriminate. }
+  cbn [data rtoxres] in H. unfold rt_ok in Hx. replace (negb ((0 <? x) && (x <? 60))) with false in H by lia.
+  fold (rtox_req x) in H.
+  destruct (srr fuel ic tc p (rtox_req x) (x * 1) timeout w) as [y w1] eqn:Es.
+  destruct (srr_R n x fuel p (x * 1) timeout w y w1 HR Hp ltac:(lia) Es) as (A & B).
+  destruct B as [(r1 & -> & B1 & B2)|[[e [-> He]]|[-> B]]].
+  - destruct (fmt r1 =? F_RTOX) eqn:E1.
+    + destruct (IH fuel p r1 timeout w1 out w' B1 B2 ltac:(lia) Hp Hfuel H) as [[X Y]|[X Y]].
+      * left. split; [exact X | apply (Rph_mono n); [lia | exact Y]].
+      * right. auto.
+    + injection H as <- <-. right.
+      destruct (Rph_facts _ _ B1) as (_ & _ & _ & r0 & Er0 & _ & _ & Hk). rewrite B2 in Er0. injection Er0 as <-.
+      destruct Hk as [[-> Hpos]|(x1 & -> & _)]; [|cbn in E1; discriminate].
+      split; [reflexivity|]. destruct B1 as [x2 rt A1 A2 A3 A4 A5 A6 A7 A8|A1 A2 A3 A4 A5 A6]; [congruence | apply Rph_send; auto].
+  - injection H as <- <-. left. split; [eauto | exact A].
+  - exfalso. lia.
+Qed.
+(* ... on a fault free script, and on a script with isolated faults that corrupts no response *)
+Lemma rtox_loop_R_good n : forall fuel p r timeout w, Rph n (w_t w) -> t_res (w_t w) = Some r -> fmt r = F_RTOX ->
+  0 <= p <= 3 -> (2 <= fuel)%nat ->
+  ((w_script w = [] /\ 1 <= timeout) \/ (Sparse (w_script w) /\ NC (w_script w) /\ 60 <= timeout)) ->
+  exists w', rtox_loop n fuel ic tc p r timeout w = (Ok infr, w') /\ Rph 0 (w_t w') /\
+             ((w_script w = [] -> w_script w' = []) /\ (Sparse (w_script w) -> NC (w_script w) -> Sparse (w_script w') /\ NC (w_script w'))).
+Proof.
+  induction n as [|n IH]; intros fuel p r timeout w HR Er Hf Hp Hfuel HG.
+  { exfalso. destruct HR as [x rt A B C D E F G I|A B C D E F]; [lia|]. rewrite E in Er. injection Er as <-.
+    unfold infr in Hf. cbn in Hf. destruct (tc_miu tc <? len resp); discriminate. }
+  cbn [rtox_loop].
+  destruct (Rph_facts _ _ HR) as (_ & _ & _ & r0 & Er0 & _ & _ & Hk). rewrite Er in Er0. injection Er0 as <-.
+  destruct Hk as [[-> _]|(x & -> & Hx & _)].
+  { exfalso. unfold infr in Hf. cbn in Hf. destruct (tc_miu tc <? len resp); discriminate. }
+  cbn [data rtoxres]. unfold rt_ok in Hx. replace (negb ((0 <? x) && (x <? 60))) with false by lia.
+  fold (rtox_req x).
+  assert (Hstep : exists r1 w1, srr fuel ic tc p (rtox_req x) (x * 1) timeout w = (Ok r1, w1) /\ Rph n (w_t w1) /\ t_res (w_t w1) = Some r1 /\
+            ((w_script w = [] -> w_script w1 = []) /\ (Sparse (w_script w) -> NC (w_script w) -> Sparse (w_script w1) /\ NC (w_script w1)))).
+  { destruct HG as [[Hs Hto]|(Hs & Hnc & Hto)].
+    - destruct (srr_R_clean n x fuel p (x * 1) timeout w HR) as (r1 & w1 & E & A & B & C & D); [rewrite Hs; reflexivity | lia | lia | lia|].
+      exists r1, w1. rewrite C, Hs. cbn. repeat split; auto; constructor.
+    - destruct (srr_R_sparse n x fuel p timeout w HR Hp Hs Hnc ltac:(lia) ltac:(lia) Hfuel) as (r1 & w1 & E & A & B & C & k & D).
+      exists r1, w1. repeat split; auto.
+      + intro E0. rewrite D, E0. destruct k; reflexivity.
+      + rewrite D. apply NC_skipn. assumption. }
+  destruct Hstep as (r1 & w1 & -> & B1 & B2 & T1 & T2).
+  assert (HG1 : (w_script w1 = [] /\ 1 <= timeout) \/ (Sparse (w_script w1) /\ NC (w_script w1) /\ 60 <= timeout)).
+  { destruct HG as [[Hs Hto]|(Hs & Hnc & Hto)]; [left; auto | right; destruct (T2 Hs Hnc); auto]. }
+  destruct (fmt r1 =? F_RTOX) eqn:E1.
+  - destruct (IH fuel p r1 timeout w1 B1 B2 ltac:(lia) Hp Hfuel HG1) as (w' & E & A & U1 & U2).
+    exists w'. split; [exact E|]. split; [exact A|]. split.
+    + intro E0. apply U1, T1, E0.
+    + intros Hs Hnc. destruct (T2 Hs Hnc). apply U2; assumption.
+  - exists w1. split; [|split; [|split; [exact T1 | exact T2]]].
+    + destruct (Rph_facts _ _ B1) as (_ & _ & _ & r0 & Er0 & _ & _ & Hk). rewrite B2 in Er0. injection Er0 as <-.
+      destruct Hk as [[-> Hpos]|(x1 & -> & _)]; [reflexivity | cbn in E1; discriminate].
+    + destruct (Rph_facts _ _ B1) as (_ & _ & _ & r0 & Er0 & _ & _ & Hk). rewrite B2 in Er0. injection Er0 as <-.
+      destruct Hk as [[-> Hpos]|(x1 & -> & _)]; [|cbn in E1; discriminate].
+      destruct B1 as [x2 rt A1 A2 A3 A4 A5 A6 A7 A8|A1 A2 A3 A4 A5 A6]; [congruence | apply Rph_send; auto].
+Qed.
+End Rtox.
 End Srr.
